@@ -38,6 +38,7 @@ Do(op, a, nfresh) ==
 
 C == NC(grid)
 R == NR(grid)
+Cells == C * R
 Small(n) == 0..(n + 1)
 Idx(n)   == Small(n) \cup {BigMAX, BigWRAP}
 Edge(n)  == {0, n} \cup (IF n > 0 THEN {n - 1} ELSE {})           \* first, last, one past
@@ -79,6 +80,11 @@ ATranslate == \E mc \in Small(C), mr \in Small(R) : Do("translate", [mc |-> mc, 
 AFlip      == \E op \in {"flip_rows", "flip_cols"} : Do(op, NoArg, 0)
 ASortRow   == \E r \in Idx(R) : Do("sort_by_row", [row |-> r], 0)
 ASortCol   == \E c \in Idx(C) : Do("sort_by_col", [col |-> c], 0)
+ASortForms == \/ \E r \in Edge(R), op \in {"sort_by_row_key", "sort_row_ord"} : Do(op, [row |-> r], 0)
+              \/ \E c \in Edge(C), op \in {"sort_by_col_key", "sort_col_ord"} : Do(op, [col |-> c], 0)
+ACloneInto == \/ \E n \in {Cells, Cells + 1} : Do("clone_from_slice", [items |-> Fresh(n)], n)
+              \/ \E snc \in {C, C + 1}, snr \in {R} : (snc = 0 <=> snr = 0) /\
+                    Do("clone_from_toodee", [nc |-> snc, nr |-> snr, items |-> Fresh(snc * snr)], snc * snr)
 AClone     == Do("clone", NoArg, 0)
 ACloneFrom == \E snc \in 0..MaxC, snr \in 0..MaxR : (snc = 0 <=> snr = 0) /\
                  Do("clone_from", [nc |-> snc, nr |-> snr, items |-> Fresh(snc * snr)], snc * snr)
@@ -107,7 +113,6 @@ DoFault(op, a, fault, supplied, nfresh) ==
 PanicAt(site, k) == [kind |-> "panic_at", site |-> site, k |-> k, lie |-> "none"]
 Lie(how)         == [kind |-> "lie", site |-> "none", k |-> 0, lie |-> how]
 Forget           == [kind |-> "forget", site |-> "none", k |-> 0, lie |-> "none"]
-Cells == C * R
 
 \* caller-supplied element iterators: the k-th next()/next_back()/len() panics, or len() lies
 FIter == /\ "iter" \in Faults
@@ -132,6 +137,15 @@ FClone == /\ "clone" \in Faults
                    DoFault("clone_from", [nc |-> snc, nr |-> snr, items |-> Fresh(snc * snr)], PanicAt(site, k), Fresh(snc * snr), snc * snr)
              \/ \E nc \in 1..MaxC, nr \in 1..MaxR : \E k \in 0..(nc * nr) :
                    DoFault("init", [nc |-> nc, nr |-> nr, v |-> nextId], PanicAt("clone", k), <<nextId>>, 1)
+FCloneInto == /\ "clone" \in Faults
+              /\ \/ \E k \in 0..Cells, site \in {"clone", "drop"} : DoFault("clone_from_slice", [items |-> Fresh(Cells)], PanicAt(site, k), Fresh(Cells), Cells)
+                 \/ \E k \in 0..Cells, site \in {"clone", "drop"} :
+                       DoFault("clone_from_toodee", [nc |-> C, nr |-> R, items |-> Fresh(Cells)], PanicAt(site, k), Fresh(Cells), Cells)
+FKey == /\ "cmp" \in Faults
+        /\ \/ \E r \in 0..(R - 1), k \in 0..(2 * C), op \in {"sort_by_row_key", "sort_row_ord"} :
+                DoFault(op, [row |-> r], PanicAt(IF op = "sort_by_row_key" THEN "key" ELSE "cmp", k), << >>, 0)
+           \/ \E c \in 0..(C - 1), k \in 0..(2 * R), op \in {"sort_by_col_key", "sort_col_ord"} :
+                DoFault(op, [col |-> c], PanicAt(IF op = "sort_by_col_key" THEN "key" ELSE "cmp", k), << >>, 0)
 FDefault == /\ "default" \in Faults
             /\ \E nc \in 1..MaxC, nr \in 1..MaxR : \E k \in 0..(nc * nr) : DoFault("new", [nc |-> nc, nr |-> nr], PanicAt("default", k), << >>, 0)
 \* an element destructor panics at its k-th call
@@ -152,7 +166,7 @@ ALeakBorrow == /\ "forget" \in Faults
                /\ \E what \in {"rows", "rows_mut", "col", "col_mut", "cells", "cells_mut", "view", "view_mut"}, taken \in {0, 1, 2} :
                     Do("leak_borrow", [what |-> what, taken |-> taken], 0)
 
-FaultNext == FIter \/ FClone \/ FDefault \/ FDrop \/ FCmp \/ FForget \/ ALeakBorrow
+FaultNext == FIter \/ FClone \/ FCloneInto \/ FKey \/ FDefault \/ FDrop \/ FCmp \/ FForget \/ ALeakBorrow
 
 Init == /\ phase = "none" /\ grid = << >> /\ handle = NoHandle /\ held = << >>
         /\ nextId = 1 /\ hist = << >>
@@ -161,7 +175,7 @@ Next == \/ CFromVec \/ CInit \/ CNew \/ CDefault \/ CWithCapacity
         \/ AInsertRow \/ APushRow \/ AInsertCol \/ APushCol
         \/ ARemoveRow \/ APopRow \/ ARemoveCol \/ APopCol \/ ADrain
         \/ AClear \/ ASwapDims \/ ACapacity \/ AShrink \/ AFill \/ ASet \/ ASwap \/ ASwapRows \/ ASwapCols
-        \/ ATranslate \/ AFlip \/ ASortRow \/ ASortCol \/ AClone \/ ACloneFrom \/ AFromView \/ AConsume
+        \/ ATranslate \/ AFlip \/ ASortRow \/ ASortCol \/ AClone \/ ACloneFrom \/ ACloneInto \/ ASortForms \/ AFromView \/ AConsume
         \/ FaultNext
 
 Spec == Init /\ [][Next]_vars
